@@ -13,7 +13,7 @@ import (
 
 // C18 — replaying a keyboard macro equals retyping its keys.
 
-const c18Rule = "start buffer B0 and a key script K of 1-25 editing/movement keys: printables incl. quotes and backslash, control keys (C-a C-e C-b C-f C-d C-k C-y C-t C-w C-u C-h), ESC-prefixed keys (M-b M-f M-d M-u M-l M-c M-DEL), CSI arrows/Home/End/Delete, C-v + key; vi style: vi command keys (h l w b e 0 $ x X ~ p P D dw cw r<c> i/a/A/I...ESC); never the macro-control keys nor accept; emacs style C-x ( K C-x ) C-x e, vi style q<r> K q @<r>; one key per read in both sessions; oracle (metamorphic): session T types B0 K then K r times, session R types B0, records K, replays r times (r = 1, 2, 3, and 21-30 for macros of up to 5 keys): final buffers, cursors and (after a common CR) returned lines are equal; pre-check: T after the first K equals R after recording, otherwise K itself is not deterministic and the case is discarded (counted); non-trivial = K has a control or ESC/CSI key and changes the buffer; distinct = hash of the case"
+const c18Rule = "start buffer B0 and a key script K of 1-25 editing/movement keys: printables incl. quotes and backslash, control keys (C-a C-e C-b C-f C-d C-k C-y C-t C-w C-u C-h), ESC-prefixed keys (M-b M-f M-d M-u M-l M-c M-DEL), CSI arrows/Home/End/Delete, C-v + key; vi style: vi command keys (h l w b e 0 $ x X ~ p P D dw cw r<c> i/a/A/I...ESC); never the macro-control keys nor accept; emacs style C-x ( K C-x ) C-x e, vi style q<r> K q @<r>; one key per read in both sessions; oracle (metamorphic): session T types B0 K then K r times, session R types B0, records K, replays r times (r = 1, 2, 3, and 21 or 24 for macros of up to 5 keys): final buffers, cursors and (after a common CR) returned lines are equal; pre-check: T after the first K equals R after recording, otherwise K itself is not deterministic and the case is discarded (counted); non-trivial = K has a control or ESC/CSI key and changes the buffer; distinct = hash of the case"
 
 type C18Case struct {
 	Style string      `json:"style"` // emacs | vi
@@ -97,7 +97,7 @@ func genC18(t *rapid.T) *C18Case {
 
 // many replays only of short macros (cost, and buffers stay small)
 func genC18Reps(t *rapid.T, nkeys int) int {
-	r := rapid.SampledFrom([]int{1, 1, 1, 1, 2, 3, 21, 22, 30}).Draw(t, "reps")
+	r := rapid.SampledFrom([]int{1, 1, 1, 1, 1, 1, 1, 2, 3, 21, 24}).Draw(t, "reps")
 	if r > 3 && nkeys > 5 {
 		r = 2
 	}
